@@ -29,7 +29,20 @@ def addr_rec(wc, h, form, bounce=1, test=0, url=1, src=None):
         rec['src'] = list(src) if isinstance(src, tuple) else src
     try:
         a = Address((wc, h))
-        if src == 'raw':
+        if src == 'mutated':
+            # an object that stood for ANOTHER account, was rendered in every form, and was then given this account's fields
+            # (directly, or by being refilled through the public is_hex / is_b64)
+            a = Address((-wc - 1, bytes(b ^ 0x5a for b in h)))
+            a.to_str(is_user_friendly=False)
+            for bb in (0, 1):
+                for tt in (0, 1):
+                    for uu in (0, 1):
+                        a.to_str(is_user_friendly=True, is_bounceable=bool(bb), is_test_only=bool(tt), is_url_safe=bool(uu))
+            if h[0] % 2:
+                a.wc, a.hash_part = wc, h
+            else:
+                a.is_hex('%d:%s' % (wc, h.hex()))
+        elif src == 'raw':
             a = Address(a.to_str(is_user_friendly=False))
         elif src == 'copy':
             a = Address(Address(a.to_str(is_bounceable=False, is_test_only=True)))
@@ -84,7 +97,7 @@ def generate(tier, seed, ctx):
                         if s:
                             friendly.append((s, url))
     # second generation: objects that were themselves parsed from a text form, rendered in every variant
-    srcs = ['raw', 'copy'] + [(b, t, u) for b in (0, 1) for t in (0, 1) for u in (0, 1)]
+    srcs = ['raw', 'copy', 'mutated'] + [(b, t, u) for b in (0, 1) for t in (0, 1) for u in (0, 1)]
     for wc in ((-128, -1, 0, 127) if q else (-128, -1, 0, 1, 127, rng.randint(-128, 127))):
         h = bytes(rng.getrandbits(8) for _ in range(32))
         for src in srcs:
